@@ -2972,7 +2972,13 @@ class RedunBackendDb(RedunBackend):
             .filter(Tag.tag_hash.in_(tag_hashes))
             .all()
         }
-        new_tags = {tag for tag in tag_rows if tag.tag_hash not in existing_tags}
+        # The same pair may be given more than once (e.g. two `apply_tags` with equal job tags
+        # within one job). Only one row per tag hash can be inserted.
+        new_tags = list(
+            {
+                tag.tag_hash: tag for tag in tag_rows if tag.tag_hash not in existing_tags
+            }.values()
+        )
 
         # Add new TagEdits.
         tag_edits = [
@@ -2989,11 +2995,13 @@ class RedunBackendDb(RedunBackend):
             if (row.parent_id, row.child_id) in tag_edit_hashes
         }
 
-        new_tag_edits = {
-            tag_edit
-            for tag_edit in tag_edits
-            if (tag_edit.parent_id, tag_edit.child_id) not in existing_tag_edits
-        }
+        new_tag_edits = list(
+            {
+                (tag_edit.parent_id, tag_edit.child_id): tag_edit
+                for tag_edit in tag_edits
+                if (tag_edit.parent_id, tag_edit.child_id) not in existing_tag_edits
+            }.values()
+        )
 
         # Invalidate old tags.
         self.session.query(Tag).filter(Tag.tag_hash.in_(parents)).update(
